@@ -418,6 +418,20 @@ func rawVal(v any) string {
 			xs = append(xs, enc(k), rawVal(x[k]))
 		}
 		return node("m", xs...)
+	case map[any]any:
+		// a mapping with keys that are no strings: an integer key n is written `#!n`
+		byKey := map[string]any{}
+		for k, e := range x {
+			switch kk := k.(type) {
+			case string:
+				byKey[kk] = e
+			case int:
+				byKey["#!"+strconv.Itoa(kk)] = e
+			default:
+				byKey[fmt.Sprintf("#?%v", k)] = e
+			}
+		}
+		return rawVal(byKey)
 	}
 	return node("x", enc(fmt.Sprintf("%T", v)))
 }
